@@ -74,6 +74,7 @@ static void verif_obs_level_done(struct qb_loop *l, int32_t p)
 	verif_mask = 0;
 	verif_done = 0;
 	verif_polls = 0;
+	verif_job_rc = 0; verif_timer_rc = 0; verif_timer_pending = 0;   /* per-iteration reports of the sources */
 	if (verif_iters < 1000) {
 		verif_iters++;
 	}
